@@ -578,6 +578,11 @@ class ColumnIndex(list):
     def tolist(self):
         return list(self)
 
+    def difference(self, other, sort=None):
+        """Index.difference(other): the labels not in other, sorted (pandas default)"""
+        other = set(other)
+        return ColumnIndex(sorted(x for x in dict.fromkeys(self) if x not in other))
+
 
 def _m_drop(self, interp):
     def drop(labels=None, axis=0, columns=None, inplace=False, **kw):
@@ -623,10 +628,13 @@ def _m_dropna(self, interp):
 
 
 def _m_fillna(self, interp):
-    def fillna(value=None, **kw):
+    def fillna(value=None, inplace=False, **kw):
         only_kw("frames.fillna", kw)
+        if inplace not in (True, False):
+            raise Undecided("fillna(inplace=<symbolic>)")
         _use("DataFrame.fillna(v | {col: v}): nulls of the listed columns replaced, other cells unchanged")
-        out = self._new()
+        # (inplace=True: the frame OBJECT is updated -- every holder of it sees the filled cells -- and None is returned)
+        out = self if inplace else self._new()
         items = value.items() if isinstance(value, dict) else [(k, value) for k in self.cols]
         for k, v in items:
             if k not in out.cols:
@@ -640,7 +648,7 @@ def _m_fillna(self, interp):
                 if vt.sort() != ct.sort():
                     vt, ct = real(vt), real(ct)
                 out.cols[k] = V(z3.If(c.nan, vt, ct), c.axes, c.series, None, c.inf)
-        return out
+        return None if inplace else out
 
     return fillna
 
@@ -1173,6 +1181,30 @@ def _m_astype(self, interp):
                 self.col(k)
             _use("DataFrame.astype({col: float}): the same values as floats (null stays null)")
             return self._new()
+        def _isint(v_):
+            return v_ is int or getattr(v_, "__name__", "") in ("int", "py_int", "int64") or v_ in ("int", "int64")
+
+        def _isfloat(v_):
+            return v_ is float or getattr(v_, "__name__", "") in ("float", "py_float", "float64") or v_ in ("float", "float64")
+
+        if isinstance(dtype, dict) and all(_isint(v_) or _isfloat(v_) for v_ in dtype.values()):
+            _use("DataFrame.astype({col: int | float}): int truncates toward zero (a missing or infinite cell raises), float keeps the value")
+            out = self._new()
+            for k, ty in dtype.items():
+                c = self.col(k)
+                if not (z3.is_int(c.t) or z3.is_real(c.t)):
+                    raise Undecided("astype of a non-numeric column")
+                if _isfloat(ty):
+                    out.cols[k] = V(real(c.t), (out.axis,), out.index, c.nan, c.inf, c.meta)
+                    continue
+                bad = _or(c.nan, c.inf)
+                if bad is not None:
+                    rows = z3.And(*self.axis.facts())
+                    if interp.ctx.branch(V(z3.And(rows, bad)), "astype-int-of-a-missing-cell"):
+                        raise SymRaise(ExcVal("IntCastingNaNError", ("Cannot convert non-finite values (NA or inf) to integer",), ("ValueError",)))
+                t_ = c.t if z3.is_int(c.t) else z3.If(c.t >= 0, z3.ToInt(c.t), -z3.ToInt(-c.t))
+                out.cols[k] = V(t_, (out.axis,), out.index, None, None, c.meta)
+            return out
         if dtype in ("float64", "float") or dtype is float or getattr(dtype, "__name__", "") in ("float", "py_float"):
             _use("DataFrame.astype('float64'): the same numbers as floats")
             out = self._new()
